@@ -577,6 +577,16 @@ for x, a in zip(xs, arr):
 for z in (3+4j, -3+4j, -3-4j, 3-4j, 2j, -2j, 5e-3j, -7.0+0j):
     s = complex(sqrt_neg(z, False)); ref = cmath.sqrt(z)
     if abs(s - ref) > 1e-12 * abs(ref): bad.append(["scalar complex", [z.real, z.imag], [s.real, s.imag]])
+try:
+    s = complex(sqrt_neg(0j, False))
+    if not (s == 0): bad.append(["scalar zero", [0.0, 0.0], [s.real, s.imag]])
+except BaseException as e:
+    bad.append(["scalar zero raised", type(e).__name__])
+try:
+    a = np.asarray(sqrt_neg(np.asarray([0j, 3+4j]), False))
+    if not (complex(a[0]) == 0 and abs(complex(a[1]) - (2+1j)) < 1e-12): bad.append(["array with zero", [complex(a[0]).real, complex(a[0]).imag], [complex(a[1]).real, complex(a[1]).imag]])
+except BaseException as e:
+    bad.append(["array with zero raised", type(e).__name__])
 result = dict(bad=bad[:6], n=len(bad))
 '''
     out = native.run(dict(code=code), timeout=600)
